@@ -12,9 +12,6 @@ import (
 	"github.com/expr-lang/expr/vm"
 )
 
-// calledFuncRe matches the name of a called function (not a method: no leading dot).
-var calledFuncRe = regexp.MustCompile(`(?:^|[^\w.])([A-Za-z_]\w*)\s*\(`)
-
 // nameBeforeParenRe matches a name followed by an opening parenthesis; see calledNames.
 var nameBeforeParenRe = regexp.MustCompile(`([A-Za-z_]\w*)\s*\(`)
 
@@ -68,15 +65,24 @@ func (e *ExprEvaluator) Eval(expression string, env map[string]any) (any, error)
 // (functions, not methods), nested calls included.
 func calledNames(expression string) map[string]bool {
 	called := map[string]bool{}
+	for _, name := range calledNamesInOrder(expression) {
+		called[name] = true
+	}
+	return called
+}
+
+// calledNamesInOrder is calledNames as a list, in the order of the text.
+func calledNamesInOrder(expression string) []string {
+	var names []string
 	for _, loc := range nameBeforeParenRe.FindAllStringSubmatchIndex(expression, -1) {
 		if start := loc[2]; start > 0 {
 			if c := expression[start-1]; c == '.' || c == '_' || c >= '0' && c <= '9' || c >= 'A' && c <= 'Z' || c >= 'a' && c <= 'z' {
 				continue
 			}
 		}
-		called[expression[loc[2]:loc[3]]] = true
+		names = append(names, expression[loc[2]:loc[3]])
 	}
-	return called
+	return names
 }
 
 // getProgram returns a cached compiled program or compiles a new one.
@@ -95,13 +101,14 @@ func (e *ExprEvaluator) getProgram(expression string) (*vm.Program, error) {
 	// read e.g. sum(a, b) or map(x) as its own predicate built-ins. Names that are merely used
 	// (a variable called title, type, json, ...) stay untyped variables.
 	var declared map[string]any
-	for _, m := range calledFuncRe.FindAllStringSubmatch(expression, -1) {
-		i := sort.SearchStrings(e.functions, m[1])
-		if i < len(e.functions) && e.functions[i] == m[1] {
+	called := calledNames(expression)
+	for name := range called {
+		i := sort.SearchStrings(e.functions, name)
+		if i < len(e.functions) && e.functions[i] == name {
 			if declared == nil {
 				declared = map[string]any{}
 			}
-			declared[m[1]] = func(...any) (any, error) { return nil, nil }
+			declared[name] = func(...any) (any, error) { return nil, nil }
 		}
 	}
 	if declared != nil {
@@ -113,7 +120,6 @@ func (e *ExprEvaluator) getProgram(expression string) (*vm.Program, error) {
 	e.mu.RUnlock()
 	// A built-in of the expression library that this expression does not call is an ordinary
 	// name: data keys such as first, last, max or keys are variables, not functions.
-	called := calledNames(expression)
 	for _, name := range builtin.Names {
 		if !called[name] {
 			options = append(options, expr.DisableBuiltin(name))
